@@ -219,6 +219,60 @@ def run_shard(args):
     return res
 
 
+def run_fuzz_campaigns(prop_id, specs, seed, enabled):
+    """atheris/libFuzzer campaigns driving the same run_case (pv/fuzz.py), one
+    process per shard.  Every violation a campaign reports is re-validated
+    through replay_case, so the verdict never depends on the fuzzer process.
+    Unavailable atheris is reported in the labels, not as an error."""
+    import subprocess
+    import tempfile
+    import shutil
+    from . import REPO_DIR
+    out = []
+    deps = os.path.join(VERIF_DIR, ".deps")
+    env = dict(os.environ)
+    env["PYTHONPATH"] = os.pathsep.join([REPO_DIR, VERIF_DIR, deps])
+    env["PV_ENABLED"] = json.dumps(list(enabled))
+    probe = subprocess.run([sys.executable, "-c", "import atheris"], env=env, capture_output=True)
+    tmp = tempfile.mkdtemp(prefix="pv-fuzz-")
+    try:
+        for sub_name, runs in specs:
+            runs = max(100, int(runs * float(os.environ.get("PV_FUZZ_SCALE", "1"))))
+            name = sub_name + "+atheris"
+            if probe.returncode != 0:
+                out.append({"sub": name, "shard": 0, "failures": [], "error": None, "wall": 0.0,
+                            "stats": {"evaluations": 0, "labels": {"atheris-unavailable": 1}, "nontrivial": [],
+                                      "samples": [], "excluded": {}, "inconclusive": 0, "metrics": {}}})
+                continue
+            procs = []
+            t0 = time.time()
+            for sh in range(NPROC):
+                path = os.path.join(tmp, "%s-%d.json" % (sub_name, sh))
+                procs.append((path, subprocess.Popen(
+                    [sys.executable, "-m", "pv.fuzz", prop_id, sub_name, str(runs), str(seed * 1000 + sh + 1), path],
+                    env=env, cwd=tmp, stdout=subprocess.DEVNULL, stderr=subprocess.DEVNULL)))
+            for path, pr in procs:
+                try:
+                    pr.wait(timeout=3600)
+                except subprocess.TimeoutExpired:
+                    pr.kill()
+                r = {"sub": name, "shard": 0, "failures": [], "error": None, "wall": time.time() - t0,
+                     "stats": {"evaluations": 0, "labels": {}, "nontrivial": [], "samples": [], "excluded": {},
+                               "inconclusive": 0, "metrics": {}}}
+                if os.path.exists(path):
+                    d = json.load(open(path))
+                    r["stats"] = d["stats"]
+                    r["stats"]["labels"]["libfuzzer-executions-decoded"] = d["executions"]
+                    for f in d["violations"]:
+                        v = replay_case(prop_id, sub_name, f["case"], enabled, "thorough")
+                        if v is not None:
+                            r["failures"].append({"case": f["case"], "kind": v.kind, "details": v.details})
+                out.append(r)
+    finally:
+        shutil.rmtree(tmp, ignore_errors=True)
+    return out
+
+
 # ------------------------------------------------------------------ findings
 def load_findings(prop_id):
     path = os.path.join(VERIF_DIR, "known_findings.json")
@@ -340,6 +394,11 @@ def main(prop_id, tier, seed, only_sub=None):
     finally:
         pool.terminate()
         pool.join()
+
+    # ---- 3b. optional coverage-guided campaigns (thorough tier) ----------
+    fuzz_specs = getattr(mod, "FUZZ", []) if tier == "thorough" and not only_sub else []
+    if fuzz_specs:
+        results = list(results) + run_fuzz_campaigns(prop_id, fuzz_specs, seed, enabled)
 
     # ---- 4. merge -------------------------------------------------------
     per_sub = collections.OrderedDict()
